@@ -288,6 +288,16 @@ UNIT = {
             'r is Some ==> *r->0 == final(self).tab()[Condition::Signal(signal)].cur()',
             ],
             'closures': {0: {'rewrite': 'and-then-to-match'}}}),
+        (STATE, ['impl GrandState', 'fn current_state'], {'ret': 'r', 'ensures': ['*r == self.cur()']}),
+        (STATE, ['impl GrandState', 'fn parent_state'], {'ret': 'r', 'ensures': ['(match r { Some(p) => Some(*p), None => None::<TrapState> }) == self.parent()']}),
+        # `trap -p` / peek_state: looking at a condition may create its record from what the system has installed, and changes nothing else
+        (TRAP, ['impl TrapSet', 'fn peek_state_impl'], {'ret': 'r',
+            'ensures': [
+                'same_but(old(self).tab(), final(self).tab(), cond)',
+                'old(self).tab().contains_key(cond) ==> final(self).tab().contains_key(cond) && final(self).tab()[cond] == old(self).tab()[cond] && r is Ok',
+                '!old(self).tab().contains_key(cond) && r is Ok ==> final(self).tab().contains_key(cond) && final(self).tab()[cond].parent() is None && final(self).tab()[cond].internal() == Disposition::Default',
+                '(!old(self).tab().contains_key(cond) && r is Ok && cond is Signal) ==> final(self).tab()[cond].cur() == initial_state(system.installed(cond->Signal_0))',
+            ]}),
         ('@raw', '}\n'),
     ],
 }
